@@ -45,6 +45,15 @@ type c03H2Scenario struct {
 	afterES  int    // DATA bytes sent after END_STREAM (not part of the response)
 	headES   bool   // END_STREAM on the HEADERS frame although a length > 0 is declared
 	closeAt  int    // >= 0: the (streaming) caller reads this many bytes, then closes the body; the peer leaves the stream open
+	enc      string // Content-Encoding of the response ("" = none): the body is the ENCODED byte string
+	surplus  []byte // the bytes sent beyond the body (len = extra); nil = extra times 'X'
+}
+
+func c03Extra(surplus []byte, extra int) []byte {
+	if surplus != nil {
+		return surplus
+	}
+	return bytes.Repeat([]byte("X"), extra)
 }
 
 // c03H2Fr is one step of the peer's script for a stream. The SAME plan drives the peer (what is
@@ -85,11 +94,14 @@ func c03H2Plan(sc c03H2Scenario) []c03H2Fr {
 	if sc.declared >= 0 {
 		fields = append(fields, [2]string{"content-length", strconv.Itoa(sc.declared)})
 	}
+	if sc.enc != "" {
+		fields = append(fields, [2]string{"content-encoding", sc.enc})
+	}
 	endsByFlag := sc.ending == "end-stream" || sc.ending == "end-stream-then-rst"
 	fr = append(fr, c03H2Fr{kind: "H", fields: fields, es: sc.headES || (endsByFlag && sc.send+sc.extra == 0 && !sc.trailers)})
 	payload := []byte(sc.body)[:sc.send]
 	if !sc.late {
-		payload = append(payload, bytes.Repeat([]byte("X"), sc.extra)...)
+		payload = append(payload, c03Extra(sc.surplus, sc.extra)...)
 	}
 	n := sc.frames
 	if n < 1 {
@@ -110,7 +122,7 @@ func c03H2Plan(sc c03H2Scenario) []c03H2Fr {
 	}
 	if sc.late {
 		// let the client consume exactly the declared bytes first
-		fr = append(fr, c03H2Fr{kind: "S", ms: 40}, c03H2Fr{kind: "D", es: !sc.trailers, data: bytes.Repeat([]byte("X"), sc.extra)})
+		fr = append(fr, c03H2Fr{kind: "S", ms: 40}, c03H2Fr{kind: "D", es: !sc.trailers, data: c03Extra(sc.surplus, sc.extra)})
 	}
 	if sc.trailers && endsByFlag {
 		fr = append(fr, c03H2Fr{kind: "H", es: true, fields: [][2]string{{"x-trailer", "v"}}})
@@ -305,13 +317,27 @@ func TestVerif_C03_h2cut(t *testing.T) {
 	rstSeq, goSeq, overSeq, preRst, preGo := 0, 0, 0, 0, 0
 	perName := map[string]int{}
 	for i := 0; i < n && failures < 12; i++ {
-		body := verifh.RandBytes(r, 1+r.Intn(300), "abcdefghijklmnopqrstuvwxyz")
+		plain := verifh.RandBytes(r, 1+r.Intn(300), "abcdefghijklmnopqrstuvwxyz")
+		kind := r.Intn(23)
+		// the content-encoding dimension: two cases in five carry an ENCODED body (kinds 20..22 always: gzip,
+		// several members); everything below — every ending, every cut point, every surplus — applies to it as it is
+		var ze *c03EncBody
+		if kind >= 20 || r.Intn(5) < 2 {
+			ze = c03PickEnc(r, plain, kind >= 20)
+		}
+		body := plain
+		if ze != nil {
+			body = string(ze.wire)
+		}
 		sc := c03H2Scenario{body: body, declared: len(body), send: len(body), frames: 1 + r.Intn(4), ending: "end-stream", complete: true, closeAt: -1}
 		if r.Intn(3) == 0 {
 			sc.declared = -1
 		}
 		// where the fault hits: right after HEADERS (no DATA yet) or after a strict prefix of the body
 		cutAt := func() int {
+			if ze != nil && len(ze.bounds) > 0 && r.Intn(3) == 0 {
+				return ze.bounds[r.Intn(len(ze.bounds))] // exactly between two gzip members
+			}
 			switch r.Intn(4) {
 			case 0:
 				return 0 // right after HEADERS
@@ -321,12 +347,13 @@ func TestVerif_C03_h2cut(t *testing.T) {
 			return r.Intn(len(body))
 		}
 		allCodes := []uint32{0, 1, 2, 3, 4, 5, 6, 7, 8, 9, 10, 11, 12, 13}
-		switch r.Intn(20) {
+		switch kind {
 		case 0, 1: // control
 			sc.name = "complete"
 			// controls without a body although a length is declared: HEAD, 204, 304
 			if r.Intn(4) == 0 {
 				sc.name, sc.head, sc.declared, sc.send = "complete-head-with-length", true, len(body), 0
+				ze = nil
 			}
 			// (no 304-with-length control on HTTP/2: like x/net/http2 the fork installs a
 			// "missing body" for END_STREAM on HEADERS with Content-Length > 0, so reading it
@@ -361,6 +388,9 @@ func TestVerif_C03_h2cut(t *testing.T) {
 			case 1: // the surplus arrives in a later DATA frame, after the declared bytes were consumed
 				sc.name, sc.late = "overlong-late-frame", true
 			case 2: // declared length = the first read buffer of io.ReadAll (512), surplus in the same frame
+				if ze != nil {
+					break
+				}
 				body = verifh.RandBytes(r, verifh.Pick(r, []int{512, 512, 1024}), "abcdefghijklmnopqrstuvwxyz")
 				sc.name, sc.body, sc.declared, sc.send, sc.frames = "overlong-at-read-buffer", body, len(body), len(body), 1
 			case 3: // content-length: 0, HEADERS without END_STREAM, then DATA
@@ -398,6 +428,45 @@ func TestVerif_C03_h2cut(t *testing.T) {
 		case 19: // the caller gives up: it reads part of what arrived and closes the body while the peer keeps the stream open
 			sc.name, sc.ending, sc.send = "caller-closes-early", "open", 1+r.Intn(len(body))
 			sc.closeAt = r.Intn(sc.send + 1)
+			ze = nil // (the bytes are then just a binary body)
+		case 20: // encoded body, the fault hits BEFORE its first byte: reset (any code) / GOAWAY / TCP close / END_STREAM with a declared length
+			sc.send, sc.complete = 0, false
+			switch r.Intn(4) {
+			case 0:
+				sc.ending, sc.code = "rst", allCodes[r.Intn(len(allCodes))]
+			case 1:
+				sc.ending, sc.code, sc.lastAt = "goaway", []uint32{0, 2}[r.Intn(2)], true
+			case 2:
+				sc.ending = "close"
+			case 3:
+				sc.declared, sc.trailers = len(body), r.Intn(2) == 0
+			}
+			sc.name = "enc-fault-before-first-byte"
+		case 21: // END_STREAM exactly between two gzip members, short of the declared length
+			sc.name, sc.declared, sc.send, sc.complete, sc.trailers = "enc-short-at-member-boundary", len(body), ze.bounds[r.Intn(len(ze.bounds))], false, r.Intn(3) == 0
+		case 22: // more DATA than declared, the surplus being a further valid gzip member (or junk)
+			sc.name, sc.declared, sc.complete, sc.late = "enc-overlong-member", len(body), false, r.Intn(2) == 0
+			sc.surplus = ze.surplus(r)
+			sc.extra = len(sc.surplus)
+		}
+		if ze != nil && sc.extra > 0 && sc.surplus == nil && r.Intn(2) == 0 {
+			sc.surplus = ze.surplus(r)
+			sc.extra = len(sc.surplus)
+		}
+		// deflate / br / zstd decoders stop at their own end-of-stream mark and never look at what the
+		// framing layer says after it (C14: "trailing bytes go unnoticed"): for them only the faults that cut
+		// the ENCODED stream short are C03 matter; the rest of the matrix runs under gzip (whose reader
+		// reads its source to the end) and identity. Such a case keeps its bytes as a plain binary body.
+		if ze != nil && ze.enc != "gzip" && !sc.complete && !(sc.send < len(body) && sc.extra == 0) {
+			ze = nil
+		}
+		if ze != nil {
+			sc.enc = ze.enc
+			s.Count("enc:" + ze.tag())
+			reached["enc:"+ze.tag()]++
+			if !sc.complete {
+				reached["enc-fault:"+ze.enc]++
+			}
 		}
 		perName[sc.name]++
 		if perName[sc.name]%4 == 1 && !sc.noHead && sc.ending != "close-before-headers" {
@@ -413,11 +482,15 @@ func TestVerif_C03_h2cut(t *testing.T) {
 		} else {
 			cc.prepClient(c)
 		}
+		ze.prep(c)
 		method := "GET"
 		if sc.head {
 			method = "HEAD"
 		}
 		want := body
+		if ze != nil {
+			want = plain
+		}
 		if sc.head || sc.status == 304 {
 			want = ""
 		}
@@ -486,11 +559,17 @@ func TestVerif_C03_h2cut(t *testing.T) {
 			impl = "ok status=" + strconv.Itoa(fx.status) + " body=" + verifh.Hex(string(fx.body))
 		case stream && fx.callFailed:
 			impl = "fail-call"
+		case stream && ze != nil:
+			impl = "fail-body" // (how much a decoder hands out before it reports the error of its source is its own business)
 		case stream:
 			impl = "fail-body delivered=" + verifh.Hex(string(fx.body))
 		}
 		impl += " dials=" + strconv.Itoa(dials)
-		line := "c03h2 " + map[bool]string{true: "1", false: "0"}[sc.head] + " 1 " + c03H2Events(c03H2Plan(sc), 1) + " " + mode
+		lane := "c03h2 "
+		if ze != nil {
+			lane = "c03h2z " + ze.enc + " "
+		}
+		line := lane + map[bool]string{true: "1", false: "0"}[sc.head] + " 1 " + c03H2Events(c03H2Plan(sc), 1) + " " + mode
 		// second opinion: the Go-side property oracle
 		ok, why := true, ""
 		if sc.closeAt >= 0 {
@@ -515,6 +594,9 @@ func TestVerif_C03_h2cut(t *testing.T) {
 			}
 			reached["fail"]++
 		}
+		if ze != nil && !fx.ok && !strings.HasPrefix(plain, string(fx.body)) {
+			ok, why = false, "the bytes handed out before the failure are not a prefix of the decoded body"
+		}
 		if !secondOK {
 			msg := ""
 			if err2 != nil {
@@ -528,10 +610,20 @@ func TestVerif_C03_h2cut(t *testing.T) {
 		reached[sc.name]++
 		s.Count("scenario:" + sc.name)
 		s.Count("dials:" + strconv.Itoa(dials))
-		human := fmt.Sprintf("h2 %s declared=%d body=%d sent=%d extra=%d frames=%d interim=%d caller=%s -> %s (%s) second-ok=%v dials=%d",
-			sc.name, sc.declared, len(body), sc.send, sc.extra, sc.frames, sc.interim, callerName, c04Short(first), ferr, secondOK, dials)
+		human := fmt.Sprintf("h2 %s enc=%s declared=%d body=%d sent=%d extra=%d frames=%d interim=%d caller=%s -> %s (%s) second-ok=%v dials=%d",
+			sc.name, ze.tag(), sc.declared, len(body), sc.send, sc.extra, sc.frames, sc.interim, callerName, c04Short(first), ferr, secondOK, dials)
 		if why != "" {
 			human += " ORACLE: " + why
+		}
+		if ze != nil && !ze.modelled {
+			// br / zstd: no container model — judged by the oracle alone
+			zclass := ""
+			if !ok && fx.ok && ze.enc == "zstd" && sc.send <= 3 {
+				zclass = c03ZstdClass
+				failures--
+			}
+			s.Observe(fmt.Sprintf("h2z/%d/%s/%s", i, sc.name, ze.tag()), ok, zclass, !sc.complete, human, why)
+			continue
 		}
 		s.Case(line, impl, ok, "", !sc.complete, human)
 	}
@@ -540,7 +632,9 @@ func TestVerif_C03_h2cut(t *testing.T) {
 		return
 	}
 	for _, need := range []string{"ok", "fail", "complete", "complete-head-with-length", "rst-code-0", "rst-code-8", "goaway-code-0-last-at", "goaway-code-0-last-below", "goaway-graceful-complete", "rst-noerror-after-end-stream", "tcp-close", "midframe", "short-end-stream", "overlong", "overlong-late-frame", "overlong-at-read-buffer", "overlong-zero-length", "close-before-headers",
-		"rst-before-headers-code-7", "rst-before-headers-code-1", "rst-before-headers-code-0", "goaway-before-headers-code-0-last-below", "goaway-before-headers-code-2-last-below", "complete-with-trailers", "short-with-trailers", "data-after-end-stream", "headers-end-stream-with-length", "caller-closes-early"} {
+		"rst-before-headers-code-7", "rst-before-headers-code-1", "rst-before-headers-code-0", "goaway-before-headers-code-0-last-below", "goaway-before-headers-code-2-last-below", "complete-with-trailers", "short-with-trailers", "data-after-end-stream", "headers-end-stream-with-length", "caller-closes-early",
+		"enc-fault-before-first-byte", "enc-short-at-member-boundary", "enc-overlong-member", "enc:gzip-transparent", "enc:gzip-auto", "enc:deflate-auto", "enc:br-auto", "enc:zstd-auto",
+		"enc-fault:gzip", "enc-fault:deflate", "enc-fault:br", "enc-fault:zstd"} {
 		if reached[need] == 0 {
 			t.Errorf("C03/h2cut never reached %q", need)
 		}
